@@ -198,6 +198,9 @@ func runC17(r *engine.Run) {
 		return
 	}
 	r.Rule = "E1. Frequency: decode(encode(f)) = f for (quick) every multiple of 100 Hz in 100..1000 MHz and 2.4..2.5 GHz plus every Hz of twenty 10 kHz windows, (thorough) every Hz value 0..2^32; Percentage: every integer -1000..1000; HEXBytes: lengths 0..600 and 1 KiB..64 KiB x 3 fillers x {plain, 0x-prefixed, upper case}; ISO8601Time: every second of four days (years 1, 1970, 2038, 9999) x zone {Z, +05:30, -08:00}; each of the 20 payload structs and the 13 building-block structs with every subset of its optional (pointer / omitempty) fields present (up to 2^10 subsets) x 3 value variants, compared field by field after json.Marshal/json.Unmarshal. Key envelopes: KEK length {16,24,32} x KEK(2) x key(3) x label {'', 'lbl'}: blob equals an independent RFC 3394 wrap, Unwrap returns the key, every single-bit flip of the blob (192), wrong KEK and truncated/extended blobs: Unwrap succeeds iff the independent integrity check passes. Non-trivial: a value that was encoded, decoded and compared."
+	// the process time zone is read by the time package (and by whoever calls time.Local / time.Date with it)
+	// when the process starts: an answer of the environment, not an argument
+	r.EnvironmentVariants([]engine.EnvVariant{{Name: "TZ=Asia/Tokyo", Env: []string{"TZ=Asia/Tokyo"}}, {Name: "TZ=America/Los_Angeles", Env: []string{"TZ=America/Los_Angeles"}}, {Name: "TZ=Pacific/Kiritimati", Env: []string{"TZ=Pacific/Kiritimati"}}})
 	c17History(r)
 	r.Assume("encoding/json and strconv are trusted; RFC 3394 is re-implemented in mc/spec/crypto.go and self-tested on the RFC vectors")
 
@@ -501,6 +504,16 @@ func runC17(r *engine.Run) {
 			agree1(what+" (envelope without label)", "", blob, k)
 		}
 		agree("own-kek", want, kek)
+		// blobs made by the same wrapping process under the same KEK with another initial value (the
+		// alternative initial value of RFC 5649 for every length 0..32, all-zero, all-one, the default
+		// with one bit flipped): none of them passes the RFC 3394 integrity check
+		ivs := [][]byte{make([]byte, 8), bytes.Repeat([]byte{0xFF}, 8), {0xA6, 0xA6, 0xA6, 0xA6, 0xA6, 0xA6, 0xA6, 0xA7}, {0x26, 0xA6, 0xA6, 0xA6, 0xA6, 0xA6, 0xA6, 0xA6}}
+		for l := 0; l <= 32; l++ {
+			ivs = append(ivs, []byte{0xA6, 0x59, 0x59, 0xA6, 0, 0, 0, byte(l)})
+		}
+		for _, iv := range ivs {
+			agree(fmt.Sprintf("other-initial-value %x", iv), spec.KeyWrapIV(kek, key, iv), kek)
+		}
 		agree("no-kek(nil)", want, nil)
 		agree("no-kek(empty)", want, []byte{})
 		agree("clear-key-as-blob", key, kek)
